@@ -584,10 +584,11 @@ def monitor_case(B, cls, maxsize, ops):
                                 "ReplSet.pop() on a replica rebuilt from a snapshot returned %r, on the replica that applied "
                                 "the whole history %r (equal contents before the call)" % (real["res"][i], plain["res"][i]), i))
             else:
-                j = min(i, len(ops) - 1)
-                viols.append(mk("batteries.%s.%s:replica-from-snapshot-differs" % (CLSNAME[cls], ops[j][0] if ops else "-"),
-                                "replica rebuilt from a snapshot: %r / contents %r; replica without: %r / contents %r"
-                                % (real["res"][j:j + 1], real["state"], plain["res"][j:j + 1], plain["state"]), i))
+                viols.append(mk("batteries.%s:replica-from-snapshot-differs" % CLSNAME[cls],
+                                "%s replica rebuilt from a snapshot: results %r, contents %r, maxsize %r; replica that applied "
+                                "everything: results %r, contents %r, maxsize %r (first difference at operation %d)"
+                                % (CLSNAME[cls], real["res"][i:i + 1], real["state"], real["maxsize"], plain["res"][i:i + 1],
+                                   plain["state"], plain["maxsize"], i), i))
     return viols
 
 
@@ -636,7 +637,7 @@ def run(ctx):
         for m, ops in systematic(cls):
             cases.append((cls, m, ops))
     n_sys = len(cases)
-    per_cls = ctx.scale(350, 12000)
+    per_cls = ctx.scale(1000, 12000)
     for cls in CLASSES + ["heap"]:
         for _ in range(per_cls if cls != "heap" else per_cls // 2):
             m, ops = random_case(rng, cls)
